@@ -879,6 +879,20 @@ func e8(w *World, r *Report) {
 			}
 		}
 	}
+	if ex == nil {
+		// whatever the helper that builds and applies the message is called
+		if deep := w.evmMessageDeep(fn); deep != nil {
+			for _, c := range CallsIn(fn) {
+				if cal := c.Common().StaticCallee(); cal != nil && w.InModule(cal) {
+					for _, g := range w.withModuleCallees(cal, 2) {
+						if g == deep.Fn {
+							ex = c
+						}
+					}
+				}
+			}
+		}
+	}
 	if gl == nil {
 		// the conversion in a helper ExecuteTrx calls: the helper's call stands for it
 		for _, hc := range CallsIn(fn) {
